@@ -645,37 +645,44 @@ Definition Decode (val : bool) (s : schema) (b : bytes) : res (value * nat) := d
 Definition enc_or_nil (val : bool) (s : schema) (v : value) : bytes :=
   match encode val true s v with Ok b => b | _ => [] end.
 
-Fixpoint canon (s : schema) (v : value) {struct s} : value :=
+(* [canon val s v]: ints reduced to their width, time stamps clamped the way TimeToUint64/ReadTime do, map entries
+   and auto-sorted slices in the byte-lexical order of their encodings, and - a defect of the format, see
+   C01_refuted_optional_zero_size - a present optional value whose encoding is empty comes back as nil. *)
+Fixpoint canon (val : bool) (s : schema) (v : value) {struct s} : value :=
   match s, v with
-  | STime, VTime ns => VTime (u64_to_time (Z.to_N (time_to_u64 ns)))
+  | STime, VTime ns => VTime (u64_to_time (le_dec (le_enc 8 (Z.to_N (time_to_u64 ns)))))
   | SInt sg w, VInt z => VInt (dec_int sg w (enc_int w z))
-  | SPtr s', _ => canon s' v
-  | SStruct _ fs, VL vs => VL (canon_fields fs vs)
+  | SPtr s', _ => canon val s' v
+  | SStruct _ fs, VL vs => VL (canon_fields val fs vs)
   | SSlice _ r e, VL vs =>
-      let vs' := map (canon e) vs in
-      VL (if ar_autosort r && ar_lex r then sort_on (enc_or_nil false e) vs' else vs')
+      VL (map (canon val e) (if ar_autosort r && ar_lex r then sort_on (enc_or_nil val e) vs else vs))
   | SArr _ _ r e, VL vs =>
-      let vs' := map (canon e) vs in
-      VL (if ar_autosort r && ar_lex r then sort_on (enc_or_nil false e) vs' else vs')
+      VL (map (canon val e) (if ar_autosort r && ar_lex r then sort_on (enc_or_nil val e) vs else vs))
   | SMap _ _ k ve, VMap es =>
-      VMap (sort_on (fun kv => enc_or_nil false k (fst kv) ++ enc_or_nil false ve (snd kv))
-                    (map (fun kv => (canon k (fst kv), canon ve (snd kv))) es))
-  | SIface _ al, VIface c v' => VIface c (canon_alt c al v')
+      VMap (map (fun kv => (canon val k (fst kv), canon val ve (snd kv)))
+                (sort_on (fun kv => enc_or_nil val k (fst kv) ++ enc_or_nil val ve (snd kv)) es))
+  | SIface _ al, VIface c v' => VIface c (canon_alt val c al v')
   | _, _ => v
   end
-with canon_fields (fs : fields) (vs : list value) {struct fs} : list value :=
+with canon_fields (val : bool) (fs : fields) (vs : list value) {struct fs} : list value :=
   match fs, vs with
   | FCons k s r, v :: vs' =>
-      (match k, v with
-       | FOpt, VNil => VNil
-       | (FEmb | FEmbPtr), VL vs'' => match s with SStruct _ fs' => VL (canon_fields fs' vs'') | _ => v end
-       | (FEmb | FEmbPtr), _ => v
-       | _, _ => canon s v
-       end) :: canon_fields r vs'
+      (match k with
+       | FPlain => canon val s v
+       | FOpt => match v with
+                 | VNil => VNil
+                 | _ => match enc_or_nil val s v with [] => VNil | _ => canon val s v end
+                 end
+       | FEmb | FEmbPtr =>
+           match s, v with
+           | SStruct _ fs', VL vs'' => VL (canon_fields val fs' vs'')
+           | _, _ => v
+           end
+       end) :: canon_fields val r vs'
   | _, _ => vs
   end
-with canon_alt (c : N) (al : alts) (v : value) {struct al} : value :=
+with canon_alt (val : bool) (c : N) (al : alts) (v : value) {struct al} : value :=
   match al with
   | ANil => v
-  | ACons c' s r => if c =? c' then canon s v else canon_alt c r v
+  | ACons c' s r => if c =? c' then canon val s v else canon_alt val c r v
   end.
